@@ -41,6 +41,8 @@ TY = {
     "listint": ("List[int]", st.lists(st.integers(0, 9), max_size=3)), "dict": ("Dict[str, int]", st.dictionaries(st.sampled_from(["p", "q"]), st.integers(0, 9), max_size=2)),
     "tuple": ("Tuple[int, str]", st.tuples(st.integers(0, 9), st.sampled_from(["a", "b"])).map(list)), "lit": ("Literal['x', 'y', 3]", st.sampled_from(["x", "y", 3])),
     "optlist": ("Optional[List[int]]", st.one_of(st.none(), st.lists(st.integers(0, 3), max_size=2))),
+    # a str-valued dict whose entries are given one per option in the nested-key form (--name.KEY=VALUE), values with '=' inside
+    "dictstr": ("Dict[str, str]", st.dictionaries(st.sampled_from(["p", "q", "JAVA_OPTS"]), st.sampled_from(["a", "x=y", "-Dmode=fast", "k=v=w", "=", "b c"]), min_size=1, max_size=2)),
     # a TypedDict (declared in the generated source) whose entries need conversion: list -> tuple, int -> float
     "td": ("TD", st.fixed_dictionaries({"t": st.tuples(st.integers(0, 9), st.sampled_from(["a", "b"])).map(list), "f": st.sampled_from([2, 0.5, -1])}, optional={"n": st.integers(0, 9)})),
 }
@@ -175,6 +177,8 @@ def render(sig, asg, omit=None, split=False):
             cfgd[n] = v
         elif is_required([n, t, k, _d]):
             pos.append(raw(v))
+        elif t == "dictstr":
+            opts += [f"--{n}.{kk}={vv}" for kk, vv in v.items()]  # one entry per option: each sets that item in the dict built so far (the default)
         else:
             opts.append(f"--{n}={raw(v)}")
     rest = opts + (["--"] if any(p.startswith("-") for p in pos) else []) + pos
@@ -214,11 +218,13 @@ def render_select(case, sig, omit):
     return ["--config", json.dumps(top)]
 
 
-def expected_call(sig, asg):
+def expected_call(sig, asg, items_form=True):
     exp = {}
     for n, t, k, d in sig:
         if n in asg["given"]:
             v = asg["given"][n]
+            if t == "dictstr" and items_form and asg["how"].get(n) == "argv" and "default" in k:
+                v = {**d, **v}  # given entry by entry on the command line: items set in the default dict
         elif "default" in k:
             v = d
         else:
@@ -302,7 +308,7 @@ def run_case(ctx, case):
         if kind == "class":
             checks.append(("__init__", case["sigs"]["__init__"], case["init_assign"], calls[0][1]))
         for name, s_, a_, got in checks:
-            exp = expected_call(s_, a_)
+            exp = expected_call(s_, a_, items_form=case.get("config_level") != "select")
             if set(got) != set(exp):
                 ctx.finding(f"C12/{kind}/callable-received-foreign-parameters", {"callable": name, "got": sorted(got), "expected": sorted(exp)})
                 continue
